@@ -36,7 +36,33 @@ type solveResult struct {
 }
 
 func runSolver(sp solverSpec, file string, timeoutS int) solveResult {
-	ctx, cancel := context.WithTimeout(context.Background(), time.Duration(timeoutS+2)*time.Second)
+	return runSolverCtx(context.Background(), sp, file, timeoutS)
+}
+
+// raceSolvers runs the given solvers side by side and returns the first decisive answer
+// (the others are killed); if none is decisive, the last non-answer.
+func raceSolvers(sps []solverSpec, file string, timeoutS int) (solveResult, int64) {
+	ctx, cancel := context.WithCancel(context.Background())
+	defer cancel()
+	ch := make(chan solveResult, len(sps))
+	for _, sp := range sps {
+		go func(sp solverSpec) { ch <- runSolverCtx(ctx, sp, file, timeoutS) }(sp)
+	}
+	var last solveResult
+	var ms int64
+	for range sps {
+		a := <-ch
+		ms += a.ms
+		if a.res == "sat" || a.res == "unsat" {
+			return a, ms
+		}
+		last = a
+	}
+	return last, ms
+}
+
+func runSolverCtx(parent context.Context, sp solverSpec, file string, timeoutS int) solveResult {
+	ctx, cancel := context.WithTimeout(parent, time.Duration(timeoutS+2)*time.Second)
 	defer cancel()
 	t0 := time.Now()
 	cmd := exec.CommandContext(ctx, sp.bin, append(sp.args(timeoutS), file)...)
@@ -128,31 +154,33 @@ func discharge(ob *Obligation, dir string, idx int, timeoutS int, cross bool) {
 		ob.Output = err.Error()
 		return
 	}
-	r := runSolver(solvers[0], file, timeoutS)
+	// stage 1: the first solver with the quick budget (or the function's own budget)
+	t1 := 20
+	if ob.TimeoutS > t1 {
+		t1 = ob.TimeoutS
+	}
+	if t1 > timeoutS {
+		t1 = timeoutS
+	}
+	r := runSolver(solvers[0], file, t1)
 	atomic.AddInt64(&solverSeconds, r.ms)
 	if r.res == "sat" && len(ob.Full) > len(ob.Asserts) {
 		// the filtered query dropped hypotheses: confirm the model against all of them
 		script = ob.ctx.Script(ob.Full, true)
 		os.WriteFile(file, []byte(script), 0o644)
-		r = runSolver(solvers[0], file, timeoutS)
+		r = runSolver(solvers[0], file, t1)
 		atomic.AddInt64(&solverSeconds, r.ms)
 	}
 	if r.res != "sat" && r.res != "unsat" {
-		// race the other two
-		ch := make(chan solveResult, 2)
-		for _, sp := range solvers[1:] {
-			go func(sp solverSpec) { ch <- runSolver(sp, file, timeoutS) }(sp)
+		// stage 2: race the solvers with the full budget; the first decisive answer wins
+		sps := solvers[1:]
+		if timeoutS > t1 {
+			sps = solvers
 		}
-		var alt []solveResult
-		for range solvers[1:] {
-			alt = append(alt, <-ch)
-		}
-		for _, a := range alt {
-			atomic.AddInt64(&solverSeconds, a.ms)
-			if a.res == "sat" || a.res == "unsat" {
-				r = a
-				break
-			}
+		a, ms := raceSolvers(sps, file, timeoutS)
+		atomic.AddInt64(&solverSeconds, ms)
+		if a.res == "sat" || a.res == "unsat" || r.res == "" {
+			r = a
 		}
 	}
 	ob.Result = r.res
@@ -162,19 +190,29 @@ func discharge(ob *Obligation, dir string, idx int, timeoutS int, cross bool) {
 	if r.res == "sat" {
 		ob.Model = parseModel(r.out)
 	}
-	if cross && r.res == "unsat" {
-		n := 1
+	if cross && r.res == "unsat" && r.ms < 5000 {
+		// thorough tier: the other solvers confirm what the first decided quickly (a short
+		// budget each, run side by side; a time-out is no information, a "sat" is a disagreement)
+		ct := 10
+		var others []solverSpec
 		for _, sp := range solvers {
-			if sp.name == r.solver {
-				continue
+			if sp.name != r.solver {
+				others = append(others, sp)
 			}
-			a := runSolver(sp, file, timeoutS)
+		}
+		ch := make(chan solveResult, len(others))
+		for _, sp := range others {
+			go func(sp solverSpec) { ch <- runSolver(sp, file, ct) }(sp)
+		}
+		n := 1
+		for range others {
+			a := <-ch
 			if a.res == "unsat" {
 				n++
 			}
 			if a.res == "sat" {
 				ob.Result = "disagree"
-				ob.Output += "\nDISAGREEMENT: " + sp.name + " says sat\n" + a.out
+				ob.Output += "\nDISAGREEMENT: " + a.solver + " says sat\n" + a.out
 			}
 		}
 		ob.Solver = fmt.Sprintf("%s(+%d confirm)", r.solver, n-1)
